@@ -98,6 +98,41 @@ def build_harness(flavour='c', ndebug=True, sanitize=True, harness='yh'):
     return exe
 
 
+def build_containers(flavour='c'):
+    """container harness ch.c against the C or the C++ containers of /repo"""
+    hsrc = os.path.join(VERIF, 'harness', 'ch.c')
+    flags = ['-O1', '-g', '-DNDEBUG', '-w'] + SAN
+    src = os.path.join(REPO, 'src')
+    files = ['hashtab', 'objstack', 'vlobject']
+    ext = '.c' if flavour == 'c' else '.cpp'
+    inputs = [hsrc, os.path.join(src, 'allocate.c'), os.path.join(src, 'allocate.h')] + \
+        [os.path.join(src, f + e) for f in files for e in (ext, '.h')]
+    key = _hash_files(inputs, flavour + ' '.join(flags))
+    name = 'ch-%s-%s' % (flavour, key)
+    out = os.path.join(WORK, name)
+    exe = os.path.join(out, 'ch')
+    if os.path.exists(exe):
+        os.utime(out)
+        return exe
+    _clean_old('ch-%s' % flavour, name)
+    tmp = out + '.tmp%d' % os.getpid()
+    shutil.rmtree(tmp, ignore_errors=True)
+    os.makedirs(tmp)
+    inc = ['-I' + src]
+    _run(['gcc'] + flags + inc + ['-c', os.path.join(src, 'allocate.c'), '-o', os.path.join(tmp, 'allocate.o')])
+    if flavour == 'c':
+        _run(['gcc'] + flags + inc + [hsrc] + [os.path.join(src, f + '.c') for f in files] + [os.path.join(tmp, 'allocate.o'), '-o', os.path.join(tmp, 'ch')])
+    else:
+        _run(['g++'] + flags + inc + ['-DCH_CXX', '-x', 'c++', hsrc] + [os.path.join(src, f + '.cpp') for f in files] +
+             ['-x', 'none', os.path.join(tmp, 'allocate.o'), '-o', os.path.join(tmp, 'ch')])
+    os.unlink(os.path.join(tmp, 'allocate.o'))
+    if os.path.exists(out):
+        shutil.rmtree(tmp, ignore_errors=True)
+    else:
+        os.rename(tmp, out)
+    return exe
+
+
 def build_lean():
     """lake build (library + driver).  Returns path of the judge executable."""
     p = subprocess.run(['lake', 'build'], cwd=LEAN, stdout=subprocess.PIPE, stderr=subprocess.STDOUT, text=True)
@@ -115,6 +150,8 @@ if __name__ == '__main__':
             print(build_harness('c'))
         if what in ('all', 'cxx'):
             print(build_harness('cxx'))
+        if what in ('all', 'containers'):
+            print(build_containers('c')); print(build_containers('cxx'))
     except BuildError as e:
         print('BUILD FAILED:', e.what)
         print(e.log)
